@@ -19,7 +19,8 @@ RULE = ("One generated file (content kind x size around k*4096 / 0 / 1 / large x
         "in a real directory or inside a ZIP, shipped or full handler list) requested through every document form "
         "(Gopher, Gopher+ '+' and '!', HTTP GET/HEAD, WAP, Gemini, Spartan, TLS variants). Oracles: body == file bytes "
         "(== decompressed bytes where the full list's decompressor claims the name; WAP text/plain inverted line by "
-        "line); '+N' == len(body); HEAD == GET headers, no body; advertised type == reference MIME model. A live tier "
+        "line); '+N' == len(body); HEAD == GET headers, no body; advertised type == reference MIME model. A live tier (which also fetches eight 1 MiB files at once "
+        "with slow readers) "
         "fetches files of 0 B .. 1 MiB from real threading / forking servers over plaintext and real TLS sockets. "
         "Non-trivial: size >= 4096, or binary content, or a name outside [A-Za-z0-9._-]; distinct by case hash.")
 ASSUMPTIONS = [
@@ -177,6 +178,7 @@ def _check_live(case, ctx):
                                       "over a real %s socket the %s body of /%s (%d bytes) arrives as %d bytes%s" % (
                                           "TLS" if tls else "plaintext", form, n, len(data), len(pr.body),
                                           "" if pr.ok else " (not a success reply: %r)" % got[:60])))
+        fails += _overlapping_downloads(srv, root, case, ctx)
         ctx.label("live:" + case["servertype"])
         ctx.sample({"live": case["servertype"], "sizes": LIVE_SIZES, "forms": LIVE_FORMS}, cls="live")
         return _dedup(fails)
@@ -184,6 +186,81 @@ def _check_live(case, ctx):
         if srv is not None:
             srv.stop()
         world.rmtree(base)
+
+
+def _overlapping_downloads(srv, root, case, ctx):
+    """Eight different 1 MiB documents fetched at the same time by clients that read slowly (small receive buffer, 2 KiB
+    reads): the server's writers block and interleave; every client must still get exactly its own file."""
+    import os
+    import socket
+    import struct
+    import threading
+    import time
+    from pgv import live
+    n = 8
+    datas = {}
+    for k in range(n):
+        # every 4-byte word is unique to (file, position)
+        datas["big%d.bin" % k] = b"".join(struct.pack("<I", (k << 24) | i) for i in range(262144))
+        with open(os.path.join(root, "big%d.bin" % k), "wb") as f:
+            f.write(datas["big%d.bin" % k])
+    forms = ["gopher", "http", "gophers", "gplus", "gemini", "gopher", "https", "spartan"]
+    out = [None] * n
+    barrier = threading.Barrier(n)
+
+    def fetch(k):
+        form = forms[k]
+        tls, fam = clients.FORMS[form]
+        try:
+            s = socket.socket()
+            s.setsockopt(socket.SOL_SOCKET, socket.SO_RCVBUF, 4096)
+            s.settimeout(60)
+            s.connect(("127.0.0.1", srv.port))
+            if tls:
+                s = live.client_ctx().wrap_socket(s, server_hostname="gopher.example")
+            barrier.wait(timeout=30)
+            s.sendall(clients.encode(form, b"/big%d.bin" % k))
+            chunks = []
+            i = 0
+            while True:
+                b = s.recv(2048)
+                if not b:
+                    break
+                chunks.append(b)
+                i += 1
+                if i % 8 == 0:
+                    time.sleep(0.0004)
+            s.close()
+            out[k] = b"".join(chunks)
+        except Exception as e:  # noqa
+            out[k] = e
+    ths = [threading.Thread(target=fetch, args=(k,), daemon=True) for k in range(n)]
+    for t in ths:
+        t.start()
+    for t in ths:
+        t.join(120)
+    fails = []
+    for k in range(n):
+        form = forms[k]
+        tls, fam = clients.FORMS[form]
+        ctx.evaluations += 1
+        ctx.count("live_overlapping_downloads")
+        ctx.nontriv(("live-overlap", case["servertype"], k))
+        got = out[k]
+        if not isinstance(got, bytes):
+            fails.append(Fail("live-overlap-failed:%s" % fam, "overlapping %s download of /big%d.bin failed: %r" % (form, k, got)))
+            continue
+        pr = clients.parse_response(form, got, expect_menu=False)
+        want = datas["big%d.bin" % k]
+        if not pr.ok or pr.body != want:
+            i = next((j for j, (a, b_) in enumerate(zip(pr.body, want)) if a != b_), min(len(pr.body), len(want)))
+            word = pr.body[i - i % 4:i - i % 4 + 4]
+            src = struct.unpack("<I", word)[0] >> 24 if len(word) == 4 else None
+            fails.append(Fail("live-overlap-body:%s" % case["servertype"],
+                              "8 downloads at once (%s): the %s body of /big%d.bin differs from the file at byte %d of %d "
+                              "(%d bytes received; the bytes there belong to file %s)" % (
+                                  case["servertype"], form, k, i, len(want), len(pr.body), src)))
+    return fails
 
 
 def check_case(case, ctx):
